@@ -12,7 +12,9 @@
  *   signature    : sigDepr  = a calendar-chain hash algorithm was deprecated at publication time
  *   user pub     : up_timeEq, up_hashEq (signature publication vs user publication), up_before (aggregation time earlier
  *                  than the user publication), upx = outcome of extending to the user publication (0 chain obtained,
- *                  1 unavailable: inconclusive without error status, 2 failed with error status upx_res),
+ *                  1 unavailable: inconclusive without error status, 2 failed with error status upx_res, 3 the extender answered
+ *                  without a chain: the fetching rule is satisfied but nothing is buffered and every comparing rule then refuses with an
+ *                  error status),
  *                  upx_depr / upx_root / upx_ptime / upx_atime / upx_input = the obtained chain is built with a deprecated
  *                  algorithm / reproduces the user publication hash / has the user publication time / has the signature's
  *                  aggregation time / starts from the signature's aggregation root
@@ -125,7 +127,7 @@ static _Bool up_timeEq, up_hashEq, up_before, upx_depr, upx_root, upx_ptime, upx
 static _Bool pf_hasTime, pf_hasPub, pf_suitable, pfx_depr, pfx_root, pfx_ptime, pfx_atime, pfx_input;
 static _Bool certFound, certValid, pkiOk, cx_root, cx_rlinks, cx_input, cx_atime;
 static u8 upx, pf, pfx, chx, csx;
-static int upx_res, pf_res, pfx_res, chx_res, csx_res;
+static int upx_res, pf_res, pfx_res, chx_res, csx_res, nochain_res;
 
 /* ---- reference decision procedures (anchor part only; internal verification is handled by the caller) ---- */
 static struct adm ref_user(void) {
@@ -137,6 +139,7 @@ static struct adm ref_user(void) {
 	if (!up_before || !extAllowed) return A_NA();                 /* extension impossible or forbidden */
 	if (upx == 1) return A_NA();
 	if (upx == 2) return A_ERR(upx_res);
+	if (upx == 3) return A_ERR(nochain_res);
 	unsigned v = (upx_root ? 0 : B_PUB1) | ((upx_ptime && upx_atime) ? 0 : B_PUB2) | (upx_input ? 0 : B_PUB3);
 	if (v) return A_FAIL(v, upx_depr);
 	return upx_depr ? A_NA() : A_OK();
@@ -151,6 +154,7 @@ static struct adm ref_pubfile(void) {
 	if (!pf_suitable || !extAllowed) return A_NA();
 	if (pfx == 1) return A_NA();
 	if (pfx == 2) return A_ERR(pfx_res);
+	if (pfx == 3) return A_ERR(nochain_res);
 	unsigned v = (pfx_root ? 0 : B_PUB1) | ((pfx_ptime && pfx_atime) ? 0 : B_PUB2) | (pfx_input ? 0 : B_PUB3);
 	if (v) return A_FAIL(v, pfx_depr);
 	return pfx_depr ? A_NA() : A_OK();
@@ -169,6 +173,7 @@ static struct adm ref_cal(void) {
 	u8 x = hasCal ? csx : chx;
 	if (x == 1) return A_NA();
 	if (x == 2) return A_ERR(hasCal ? csx_res : chx_res);
+	if (x == 3) return A_ERR(nochain_res);
 	unsigned v = (cx_input ? 0 : B_CAL2) | (cx_atime ? 0 : B_CAL3);
 	if (hasCal) v |= hasPub ? (cx_root ? 0 : B_CAL1) : (cx_rlinks ? 0 : B_CAL4);
 	return v ? A_FAIL(v, 0) : A_OK();
@@ -209,9 +214,10 @@ void harness(void) {
 	certFound = ND_BOOL(certFound); certValid = ND_BOOL(certValid); pkiOk = ND_BOOL(pkiOk);
 	cx_root = ND_BOOL(cx_root); cx_rlinks = ND_BOOL(cx_rlinks); cx_input = ND_BOOL(cx_input); cx_atime = ND_BOOL(cx_atime);
 	upx = ND(u8, upx); pf = ND(u8, pf); pfx = ND(u8, pfx); chx = ND(u8, chx); csx = ND(u8, csx);
-	ASSUME(upx <= 2 && pf <= 2 && pfx <= 2 && chx <= 2 && csx <= 2);
+	ASSUME(upx <= 3 && pf <= 2 && pfx <= 3 && chx <= 3 && csx <= 3);
 	upx_res = ND(int, upx_res); pf_res = ND(int, pf_res); pfx_res = ND(int, pfx_res); chx_res = ND(int, chx_res); csx_res = ND(int, csx_res);
 	ASSUME(upx_res != KSI_OK && pf_res != KSI_OK && pfx_res != KSI_OK && chx_res != KSI_OK && csx_res != KSI_OK);
+	nochain_res = ND(int, nochain_res); ASSUME(nochain_res != KSI_OK);      /* status of a comparing rule that finds no buffered chain */
 	u8 st[NCOND]; int unc_res[NCOND]; int unc_ec[NCOND];
 	for (int i = 0; i < NCOND; i++) {
 		st[i] = ND(u8, cond_state); ASSUME(st[i] <= UNCOMPUTABLE);
@@ -257,19 +263,22 @@ void harness(void) {
 		else { SET_COMPUTABLE; } \
 	} while (0)
 #define VERIFY(rule, holds, code) VR_SET(rule, KSI_OK, (holds) ? OKv : FAILv, (holds) ? KSI_VER_ERR_NONE : (code))
+	/* comparing rule on the buffered extender chain: refuses with an error status when nothing is buffered */
+#define ON_CHAIN(rule, have, SET_WITH_CHAIN) do { if (have) { SET_WITH_CHAIN; } else VR_SET(rule, nochain_res, NAv, na_ec); } while (0)
 #define PROBE(rule, holds) VR_SET(rule, KSI_OK, (holds) ? OKv : NAv, (holds) ? KSI_VER_ERR_NONE : na_ec)
-#define FETCH(rule, x, xres) do { if ((x) == 0) VR_SET(rule, KSI_OK, OKv, KSI_VER_ERR_NONE); else if ((x) == 1) VR_SET(rule, KSI_OK, NAv, na_ec); else VR_SET(rule, xres, NAv, na_ec); } while (0)
+#define FETCH(rule, x, xres) do { if ((x) == 0 || (x) == 3) VR_SET(rule, KSI_OK, OKv, KSI_VER_ERR_NONE); else if ((x) == 1) VR_SET(rule, KSI_OK, NAv, na_ec); else VR_SET(rule, xres, NAv, na_ec); } while (0)
 	/* rules reading the publications file share its availability */
 #define WITH_PF(rule, SET_AVAILABLE) do { if (pf == 0) { SET_AVAILABLE; } else FETCH(rule, pf, pf_res); } while (0)
 
 	/* calendar-based: "the calendar hash chain from extending service must be buffered prior to verification" */
-	_Bool cx_have = hasCal ? (csx == 0) : (chx == 0);
+	_Bool cx_have = hasCal ? (csx == 0) : (chx == 0);                     /* a chain is buffered */
+	_Bool cx_got = hasCal ? (csx == 0 || csx == 3) : (chx == 0 || chx == 3);  /* the fetching rule was satisfied */
 	ANCHOR(ExtendSignatureCalendarChainInputHashToHead, 1, FETCH(ExtendSignatureCalendarChainInputHashToHead, chx, chx_res));
 	ANCHOR(ExtendSignatureCalendarChainInputHashToSamePubTime, hasCal, FETCH(ExtendSignatureCalendarChainInputHashToSamePubTime, csx, csx_res));
-	ANCHOR(ExtendedSignatureCalendarChainRightLinksMatch, hasCal && cx_have, VERIFY(ExtendedSignatureCalendarChainRightLinksMatch, cx_rlinks, KSI_VER_ERR_CAL_4));
-	ANCHOR(ExtendedSignatureCalendarChainRootHash, hasCal && cx_have, VERIFY(ExtendedSignatureCalendarChainRootHash, cx_root, KSI_VER_ERR_CAL_1));
-	ANCHOR(ExtendedSignatureCalendarChainInputHash, cx_have, VERIFY(ExtendedSignatureCalendarChainInputHash, cx_input, KSI_VER_ERR_CAL_2));
-	ANCHOR(ExtendedSignatureCalendarChainAggregationTime, cx_have, VERIFY(ExtendedSignatureCalendarChainAggregationTime, cx_atime, KSI_VER_ERR_CAL_3));
+	ANCHOR(ExtendedSignatureCalendarChainRightLinksMatch, hasCal && cx_got, ON_CHAIN(ExtendedSignatureCalendarChainRightLinksMatch, cx_have, VERIFY(ExtendedSignatureCalendarChainRightLinksMatch, cx_rlinks, KSI_VER_ERR_CAL_4)));
+	ANCHOR(ExtendedSignatureCalendarChainRootHash, hasCal && cx_got, ON_CHAIN(ExtendedSignatureCalendarChainRootHash, cx_have, VERIFY(ExtendedSignatureCalendarChainRootHash, cx_root, KSI_VER_ERR_CAL_1)));
+	ANCHOR(ExtendedSignatureCalendarChainInputHash, cx_got, ON_CHAIN(ExtendedSignatureCalendarChainInputHash, cx_have, VERIFY(ExtendedSignatureCalendarChainInputHash, cx_input, KSI_VER_ERR_CAL_2)));
+	ANCHOR(ExtendedSignatureCalendarChainAggregationTime, cx_got, ON_CHAIN(ExtendedSignatureCalendarChainAggregationTime, cx_have, VERIFY(ExtendedSignatureCalendarChainAggregationTime, cx_atime, KSI_VER_ERR_CAL_3)));
 	/* key-based */
 	ANCHOR(CalendarHashChainHashAlgorithmDeprecatedAtPubTime, hasCal, PROBE(CalendarHashChainHashAlgorithmDeprecatedAtPubTime, !sigDepr));
 	ANCHOR(CertificateExistence, hasAuth, WITH_PF(CertificateExistence, PROBE(CertificateExistence, certFound)));
@@ -283,19 +292,20 @@ void harness(void) {
 	ANCHOR(PublicationsFileSignatureCalendarChainHashAlgorithmDeprecatedAtPubTime, hasCal, PROBE(PublicationsFileSignatureCalendarChainHashAlgorithmDeprecatedAtPubTime, !sigDepr));
 	ANCHOR(PublicationsFileContainsSuitablePublication, 1, WITH_PF(PublicationsFileContainsSuitablePublication, PROBE(PublicationsFileContainsSuitablePublication, pf_suitable)));
 	ANCHOR(PublicationsFileExtendToPublication, pf != 0 || pf_suitable, WITH_PF(PublicationsFileExtendToPublication, FETCH(PublicationsFileExtendToPublication, pfx, pfx_res)));
-	_Bool pfx_have = (pf != 0) || (pf_suitable && pfx == 0);
-	ANCHOR(PublicationsFileExtendedCalendarChainHashAlgorithmDeprecatedAtPubTime, pfx_have,
-			WITH_PF(PublicationsFileExtendedCalendarChainHashAlgorithmDeprecatedAtPubTime, PROBE(PublicationsFileExtendedCalendarChainHashAlgorithmDeprecatedAtPubTime, !pfx_depr)));
-	ANCHOR(PublicationsFilePublicationHashMatchesExtenderResponse, pfx_have,
-			WITH_PF(PublicationsFilePublicationHashMatchesExtenderResponse, VERIFY(PublicationsFilePublicationHashMatchesExtenderResponse, pfx_root, KSI_VER_ERR_PUB_1)));
+	_Bool pfx_got = (pf != 0) || (pf_suitable && (pfx == 0 || pfx == 3));
+	_Bool pfx_have = (pfx == 0);
+	ANCHOR(PublicationsFileExtendedCalendarChainHashAlgorithmDeprecatedAtPubTime, pfx_got,
+			WITH_PF(PublicationsFileExtendedCalendarChainHashAlgorithmDeprecatedAtPubTime, ON_CHAIN(PublicationsFileExtendedCalendarChainHashAlgorithmDeprecatedAtPubTime, pfx_have, PROBE(PublicationsFileExtendedCalendarChainHashAlgorithmDeprecatedAtPubTime, !pfx_depr))));
+	ANCHOR(PublicationsFilePublicationHashMatchesExtenderResponse, pfx_got,
+			WITH_PF(PublicationsFilePublicationHashMatchesExtenderResponse, ON_CHAIN(PublicationsFilePublicationHashMatchesExtenderResponse, pfx_have, VERIFY(PublicationsFilePublicationHashMatchesExtenderResponse, pfx_root, KSI_VER_ERR_PUB_1))));
 	/* documented as "publication time matches with extender response calendar chain shape" for both anchors: publication time
 	 * and the position (aggregation time) the chain shape stands for */
-	ANCHOR(PublicationsFilePublicationTimeMatchesExtenderResponse, pfx_have,
-			WITH_PF(PublicationsFilePublicationTimeMatchesExtenderResponse, VERIFY(PublicationsFilePublicationTimeMatchesExtenderResponse, pfx_ptime && pfx_atime, KSI_VER_ERR_PUB_2)));
-	ANCHOR(PublicationsFileExtendedSignatureInputHash, pfx_have,
-			WITH_PF(PublicationsFileExtendedSignatureInputHash, VERIFY(PublicationsFileExtendedSignatureInputHash, pfx_input, KSI_VER_ERR_PUB_3)));
+	ANCHOR(PublicationsFilePublicationTimeMatchesExtenderResponse, pfx_got,
+			WITH_PF(PublicationsFilePublicationTimeMatchesExtenderResponse, ON_CHAIN(PublicationsFilePublicationTimeMatchesExtenderResponse, pfx_have, VERIFY(PublicationsFilePublicationTimeMatchesExtenderResponse, pfx_ptime && pfx_atime, KSI_VER_ERR_PUB_2))));
+	ANCHOR(PublicationsFileExtendedSignatureInputHash, pfx_got,
+			WITH_PF(PublicationsFileExtendedSignatureInputHash, ON_CHAIN(PublicationsFileExtendedSignatureInputHash, pfx_have, VERIFY(PublicationsFileExtendedSignatureInputHash, pfx_input, KSI_VER_ERR_PUB_3))));
 	/* user publication based */
-	_Bool upx_have = (upx == 0);
+	_Bool upx_have = (upx == 0), upx_got = (upx == 0 || upx == 3);
 	ANCHOR(UserProvidedPublicationTimeVerification, hasPub && userPubComplete, PROBE(UserProvidedPublicationTimeVerification, up_timeEq));
 	/* "user provided publication time does not equal the publication time inside the signature" (also when there is none) */
 	ANCHOR(UserProvidedPublicationTimeDoesNotSuit, userPubPtr, PROBE(UserProvidedPublicationTimeDoesNotSuit, !(hasPub && up_timeEq)));
@@ -303,10 +313,10 @@ void harness(void) {
 	ANCHOR(UserProvidedPublicationSignatureCalendarChainHashAlgorithmDeprecatedAtPubTime, hasCal, PROBE(UserProvidedPublicationSignatureCalendarChainHashAlgorithmDeprecatedAtPubTime, !sigDepr));
 	ANCHOR(UserProvidedPublicationCreationTimeVerification, userPubComplete, PROBE(UserProvidedPublicationCreationTimeVerification, up_before));
 	ANCHOR(UserProvidedPublicationExtendToPublication, userPubComplete, FETCH(UserProvidedPublicationExtendToPublication, upx, upx_res));
-	ANCHOR(UserProvidedPublicationExtendedCalendarChainHashAlgorithmDeprecatedAtPubTime, userPubComplete && upx_have, PROBE(UserProvidedPublicationExtendedCalendarChainHashAlgorithmDeprecatedAtPubTime, !upx_depr));
-	ANCHOR(UserProvidedPublicationHashMatchesExtendedResponse, userPubComplete && upx_have, VERIFY(UserProvidedPublicationHashMatchesExtendedResponse, upx_root, KSI_VER_ERR_PUB_1));
-	ANCHOR(UserProvidedPublicationTimeMatchesExtendedResponse, userPubComplete && upx_have, VERIFY(UserProvidedPublicationTimeMatchesExtendedResponse, upx_ptime && upx_atime, KSI_VER_ERR_PUB_2));
-	ANCHOR(UserProvidedPublicationExtendedSignatureInputHash, userPubComplete && upx_have, VERIFY(UserProvidedPublicationExtendedSignatureInputHash, upx_input, KSI_VER_ERR_PUB_3));
+	ANCHOR(UserProvidedPublicationExtendedCalendarChainHashAlgorithmDeprecatedAtPubTime, userPubComplete && upx_got, ON_CHAIN(UserProvidedPublicationExtendedCalendarChainHashAlgorithmDeprecatedAtPubTime, upx_have, PROBE(UserProvidedPublicationExtendedCalendarChainHashAlgorithmDeprecatedAtPubTime, !upx_depr)));
+	ANCHOR(UserProvidedPublicationHashMatchesExtendedResponse, userPubComplete && upx_got, ON_CHAIN(UserProvidedPublicationHashMatchesExtendedResponse, upx_have, VERIFY(UserProvidedPublicationHashMatchesExtendedResponse, upx_root, KSI_VER_ERR_PUB_1)));
+	ANCHOR(UserProvidedPublicationTimeMatchesExtendedResponse, userPubComplete && upx_got, ON_CHAIN(UserProvidedPublicationTimeMatchesExtendedResponse, upx_have, VERIFY(UserProvidedPublicationTimeMatchesExtendedResponse, upx_ptime && upx_atime, KSI_VER_ERR_PUB_2)));
+	ANCHOR(UserProvidedPublicationExtendedSignatureInputHash, userPubComplete && upx_got, ON_CHAIN(UserProvidedPublicationExtendedSignatureInputHash, upx_have, VERIFY(UserProvidedPublicationExtendedSignatureInputHash, upx_input, KSI_VER_ERR_PUB_3)));
 
 	/* ---- the real engine on the real tables ---- */
 	KSI_VerificationContext vc;
@@ -369,6 +379,7 @@ void harness(void) {
 		if (upx == 2 && res == upx_res) explained = 1;
 		if (chx == 2 && res == chx_res) explained = 1;
 		if (csx == 2 && res == csx_res) explained = 1;
+		if ((upx == 3 || pfx == 3 || chx == 3 || csx == 3) && res == nochain_res) explained = 1;
 #define A_EXPL(n) if (a_flag_##n && VR_CALLS(n) > 0 && a_flagres_##n == res) explained = 1;
 		ANCHOR_LIST(A_EXPL)
 		CHECK(res == KSI_OK || explained, "C04.Hb an error status originates from a failed fetch or a rule that could not compute");
@@ -426,6 +437,7 @@ void harness(void) {
 	if (final_na && internal_ok && hasAuth && pf == 0 && !certFound && !userPubPtr && n_flag == 0) WITNESS_POINT("certificate not found: NA");
 #endif
 #if POLICY == P_CAL
+	if (res != KSI_OK && n_flag == 0 && i_unc == 0 && internal_ok && chx == 3 && !hasCal) WITNESS_POINT("calendar based, extender reply without chain: error status");
 	if (final_ok && !hasCal) WITNESS_POINT("calendar based, extended to head: OK");
 	if (final_ok && hasCal && hasPub) WITNESS_POINT("calendar based, same root: OK");
 	if (final_ok && hasCal && !hasPub) WITNESS_POINT("calendar based, same right links: OK");
